@@ -23,7 +23,9 @@ size_t g_isz;             /* current length */
 struct iovec *IovVec_begin(struct IovVec *v) { return g_iov; }
 struct iovec *IovVec_end(struct IovVec *v) { return g_iov + g_isz; }
 void IovVec_clear(struct IovVec *v) { g_isz = 0; }
+#ifndef VF_KEEP_WRITING
 _Bool IovVec_empty(struct IovVec *v) { return g_isz == 0; }
+#endif
 struct iovec *IovVec_data(struct IovVec *v) { return g_iov; }
 size_t IovVec_size(struct IovVec *v) { return g_isz; }
 /* ---- the page buffer (std::vector<void*>) */
@@ -64,14 +66,17 @@ size_t g_ps;                                  /* the allocator's page size */
 unsigned g_appends; struct LogEntry *g_app_entry; struct IovVec *g_app_vec; size_t g_app_ps;
 size_t g_dsz, g_fidx; Dest_t *g_dests; struct FileObject *g_file; unsigned g_set_index_calls; size_t g_set_index_val; unsigned g_dest_emplaced, g_vec_ctor, g_vec_dtor;
 size_t g_qn, g_stop_at, g_appended; Item_t *g_items; Dest_t *g_cur_dest; size_t g_cur_idx; unsigned g_dest_calls; _Bool g_order_ok, g_dest_ok, g_ps_ok;
+size_t g_cap, g_batch_asked; unsigned g_rounds; _Bool g_stop_seen; unsigned g_chk, g_closes, g_oldfds; int g_last_fd, g_last_old; struct FileObject *g_last_file; size_t g_round_dsz; _Bool g_round_complete;
+Dest_t *g_wdest; size_t g_iov_cap, g_items_cap;
 static void vf_havoc_ghosts(void) {
+  g_cap = nondet_u64(); g_rounds = 0; g_stop_seen = 0; g_chk = g_closes = g_oldfds = 0; g_last_fd = -1; g_last_old = -1; g_last_file = 0; g_round_dsz = 0; g_round_complete = 0; g_wdest = 0;
   g_ps = nondet_u64(); g_appends = 0; g_app_entry = 0; g_app_vec = 0; g_app_ps = 0;
   g_dsz = nondet_u64(); __CPROVER_assume(g_dsz < (1UL << 20)); g_dests = malloc((g_dsz + 2) * sizeof(Dest_t)); __CPROVER_assume(g_dests != 0);
   g_fidx = nondet_u64(); g_file = 0; g_set_index_calls = 0; g_set_index_val = 0; g_dest_emplaced = g_vec_ctor = g_vec_dtor = 0;
-  g_qn = nondet_u64(); __CPROVER_assume(g_qn < (1UL << 20)); g_items = malloc((g_qn + 1) * sizeof(Item_t)); __CPROVER_assume(g_items != 0);
+  g_qn = nondet_u64(); __CPROVER_assume(g_qn < (1UL << 20)); g_items = malloc((g_qn + 1) * sizeof(Item_t)); __CPROVER_assume(g_items != 0); g_items_cap = g_qn;
   g_stop_at = nondet_u64(); g_appended = 0; g_cur_dest = 0; g_dest_calls = 0; g_order_ok = 1; g_dest_ok = 1; g_ps_ok = 1;
   g_in = nondet_u64(); __CPROVER_assume(g_in < (1UL << 32));
-  g_iov = malloc((g_in + 1) * sizeof(struct iovec)); __CPROVER_assume(g_iov != 0);
+  g_iov = malloc((g_in + 1) * sizeof(struct iovec)); __CPROVER_assume(g_iov != 0); g_iov_cap = g_in;
   g_isz = nondet_u64(); g_psz = 0; g_f = nondet_u64(); g_fval = 0; g_pdata = malloc(8); __CPROVER_assume(g_pdata != 0);
   g_wr = 0; g_fd = nondet_int(); g_bad_fd = 0; g_dcalls = 0; g_dn = nondet_u64(); g_dfval = 0; g_dptr = 0;
 }
@@ -79,6 +84,9 @@ static void vf_havoc_ghosts(void) {
 void AsyncFileAppender_write_use_plain_writev(struct AsyncFileAppender *self, struct AsyncFileAppender_Destination *dest, int fd)
 __CPROVER_requires(__CPROVER_is_fresh(self, sizeof(*self)) && __CPROVER_is_fresh(dest, sizeof(*dest)) && __CPROVER_is_fresh(self->_page_allocator, 8))
 __CPROVER_requires(g_isz == g_in && g_in < (1UL << 32) && g_wr == 0 && fd == g_fd && g_bad_fd == 0 && g_dcalls == 0)
+#ifdef VF_KEEP_WRITING
+__CPROVER_requires(dest == g_wdest)
+#endif
 __CPROVER_requires(g_psz == 0)   /* the function-local static buffer is empty between calls: it is cleared on every exit (ensures below) */
 __CPROVER_assigns(g_isz, g_psz, g_fval, g_wr, g_bad_fd, g_dcalls, g_dn, g_dfval, g_dptr)
 __CPROVER_ensures(g_wr == g_in && g_bad_fd == 0)                       /* everything written, once, in order, to the given descriptor */
@@ -196,5 +204,70 @@ __CPROVER_ensures(g_dest_calls == g_appended)
 //@  __CPROVER_loop_invariant(QPOS(@p1:iter@) == g_appended && g_appended <= g_qn && g_appended <= g_stop_at && g_order_ok && g_dest_ok && g_ps_ok && g_dest_calls == g_appended && g_cur_dest == 0 && QPOS(@p2:end@) == g_qn)
 //@  __CPROVER_loop_invariant(*self->cap_stop == __CPROVER_loop_entry(*self->cap_stop))
 //@  __CPROVER_decreases(g_qn - g_appended)
+//@end
+
+/* keep_writing (the writer thread): rounds of "pop a batch, then visit every destination".  Obligations:
+ *   - after every pop, EVERY destination of the registry is visited once: its file is asked for its descriptor pair, a returned
+ *     old descriptor (>= 0) is closed exactly once, and a non-empty list is written (write_use_plain_writev, against its contract)
+ *     on the descriptor just obtained for that very file -- so nothing popped stays unwritten when the round ends;
+ *   - the loop is left only after a round whose batch contained the stop marker (close()), and that round's lists are written too.
+ * The pop itself is the queue's (C01); its callback is the lambda above (its contract is used here). */
+#ifdef VF_KEEP_WRITING
+size_t ConcurrentBoundedQueue_L_AsyncFileAppender_Item_SchedInterface_R_capacity(struct ConcurrentBoundedQueue_L_AsyncFileAppender_Item_SchedInterface_R *q) { return g_cap; }
+size_t ConcurrentBoundedQueue_L_AsyncFileAppender_Item_SchedInterface_R_try_pop_n__0_0_lambda_async_file_appender_keep_writing_1_void(struct ConcurrentBoundedQueue_L_AsyncFileAppender_Item_SchedInterface_R *q, PopL_t *cb, unsigned long batch) {
+  __CPROVER_assert(g_isz == 0, "C20 appender: every non-empty destination list was written before the next batch is popped");
+  __CPROVER_assert(g_rounds == 0 || g_round_complete, "C20 appender: every destination was visited after the previous batch");
+  __CPROVER_assert(!g_stop_seen, "C20 appender: nothing is popped after the stop marker");
+  __CPROVER_assume(g_rounds < 1000000); g_rounds++; g_round_complete = 0;
+  /* the batch: g_qn <= batch items, stop marker at g_stop_at (>= g_qn: none) */
+  g_qn = nondet_u64(); __CPROVER_assume(g_qn <= batch && g_qn <= g_items_cap); g_stop_at = nondet_u64(); g_appended = 0; g_dest_calls = 0; g_cur_dest = 0; g_order_ok = g_dest_ok = g_ps_ok = 1;
+  QIt_t b, e; b._slot = (void *)0; e._slot = (void *)g_qn;
+  LPOP(cb, b, e);
+  if (g_stop_at < g_qn) g_stop_seen = 1;
+  return g_qn;
+}
+Dest_t *std_vector_L_AsyncFileAppender_Destination_R_begin(struct std_vector_L_AsyncFileAppender_Destination_R *v) {
+  g_round_dsz = nondet_u64(); __CPROVER_assume(g_round_dsz <= g_dsz); g_chk = 0; g_round_complete = (g_round_dsz == 0); return g_dests;      /* the registry as it is after this round's pop */
+}
+Dest_t *std_vector_L_AsyncFileAppender_Destination_R_end(struct std_vector_L_AsyncFileAppender_Destination_R *v) { return g_dests + g_round_dsz; }
+struct std_tuple_L_int_int_R FileObject_check_and_get_file_descriptor(struct FileObject *f) {
+  struct std_tuple_L_int_int_R r; r.e0 = nondet_int(); r.e1 = nondet_int();
+  __CPROVER_assert(g_chk < g_round_dsz && f == g_dests[g_chk].file, "C20 appender: destination k's own file is asked for its descriptors, once per round");
+  __CPROVER_assert(g_last_old < 0, "C20 appender: a returned old descriptor is closed before the next file is asked");
+  __CPROVER_assert(g_isz == 0, "C20 appender: a non-empty destination list is written before the next destination is visited");
+  g_last_fd = r.e0; g_last_old = r.e1; g_last_file = f; if (r.e1 >= 0) { __CPROVER_assume(g_oldfds < 1000000); g_oldfds++; }
+  if (nondet_int() & 1) {
+    /* this destination's list is non-empty (g_in elements): fresh bookkeeping for write_use_plain_writev's contract, which must be
+       given this destination and the descriptor returned here; whether the code looks at the list or not, it must be written */
+    g_in = nondet_u64(); __CPROVER_assume(g_in >= 1 && g_in <= g_iov_cap); g_isz = g_in; g_wr = 0; g_dcalls = 0; g_bad_fd = 0; g_psz = 0; g_fd = r.e0; g_wdest = &g_dests[g_chk];
+  }
+  g_chk++; if (g_chk == g_round_dsz) g_round_complete = 1;
+  return r;
+}
+int vf_close(int fd) { __CPROVER_assert(fd >= 0 && fd == g_last_old, "C20 appender: only the old descriptor just returned is closed, once"); g_last_old = -1; g_closes++; return 0; }
+int vf_usleep(unsigned us) { return 0; }
+_Bool IovVec_empty(struct IovVec *v) {
+  __CPROVER_assert(g_chk >= 1 && v == &g_dests[g_chk - 1].iov, "C20 appender: the list examined is the one of the destination just asked");
+  return g_isz == 0;
+}
+#endif
+void AsyncFileAppender_keep_writing(App_t *self)
+__CPROVER_requires(__CPROVER_is_fresh(self, sizeof(*self)) && __CPROVER_is_fresh(self->_page_allocator, 8) && g_isz == 0 && g_rounds == 0 && !g_stop_seen && g_closes == 0 && g_oldfds == 0 && g_last_old == -1 && self->_backoff_us <= 100000)
+__CPROVER_assigns(self->_backoff_us, g_rounds, g_stop_seen, g_chk, g_closes, g_oldfds, g_last_fd, g_last_old, g_last_file, g_round_dsz, g_round_complete, g_qn, g_stop_at, g_appended, g_dest_calls, g_cur_dest, g_cur_idx,
+                  g_order_ok, g_dest_ok, g_ps_ok, g_in, g_isz, g_wr, g_dcalls, g_bad_fd, g_psz, g_fd, g_wdest, g_fval, g_dn, g_dfval, g_dptr, __CPROVER_object_whole(g_dests), __CPROVER_object_whole(g_items))
+__CPROVER_ensures(g_stop_seen && g_rounds >= 1)                                   /* left only after the stop marker */
+__CPROVER_ensures(g_isz == 0 && (g_round_dsz == 0 || g_round_complete))           /* the last round's lists are written, every destination visited */
+__CPROVER_ensures(g_closes == g_oldfds && g_last_old < 0)                          /* every old descriptor closed exactly once */
+;
+#define DEST_AT(p, k) (__CPROVER_same_object(p, g_dests) && __CPROVER_POINTER_OFFSET(p) % sizeof(Dest_t) == 0 && __CPROVER_POINTER_OFFSET(p) / sizeof(Dest_t) == (k))
+//@loop AsyncFileAppender_keep_writing 1
+//@  __CPROVER_assigns(@l1:stop@, self->_backoff_us, g_rounds, g_stop_seen, g_chk, g_closes, g_oldfds, g_last_fd, g_last_old, g_last_file, g_round_dsz, g_round_complete, g_qn, g_stop_at, g_appended, g_dest_calls, g_cur_dest, g_cur_idx, g_order_ok, g_dest_ok, g_ps_ok, g_in, g_isz, g_wr, g_dcalls, g_bad_fd, g_psz, g_fd, g_wdest, g_fval, g_dn, g_dfval, g_dptr, __CPROVER_object_whole(g_dests), __CPROVER_object_whole(g_items))
+//@  __CPROVER_loop_invariant(!@l1:stop@ && !g_stop_seen && g_isz == 0 && (g_rounds == 0 || g_round_complete) && g_closes == g_oldfds && g_last_old < 0)
+//@end
+//@loop AsyncFileAppender_keep_writing 2
+//@  VF_REBASE(__begin2, g_dests)
+//@  __CPROVER_assigns(__begin2, g_chk, g_closes, g_oldfds, g_last_fd, g_last_old, g_last_file, g_round_complete, g_in, g_isz, g_wr, g_dcalls, g_bad_fd, g_psz, g_fd, g_wdest, g_fval, g_dn, g_dfval, g_dptr)
+//@  __CPROVER_loop_invariant(g_chk <= g_round_dsz && g_round_dsz <= g_dsz && DEST_AT(__begin2, g_chk) && DEST_AT(__end2, g_round_dsz) && g_isz == 0 && g_last_old < 0 && g_closes == g_oldfds && g_round_complete == (g_chk == g_round_dsz))
+//@  __CPROVER_decreases(g_round_dsz - g_chk)
 //@end
 #endif
